@@ -686,6 +686,35 @@ fn cmap_oracles(s: &mut Session, label: &str, data: &[u8], req: &Req, r: &mut Rn
     s.oracle("cmap-table-kept", true, || input.clone(), String::new);
     let uniset: BTreeSet<u32> = req.unicodes.iter().copied().collect();
     let gidset: BTreeSet<u32> = req.gids.iter().copied().collect();
+    // branch coverage of the table-level code
+    {
+        let offs: Vec<u32> = scmap.encoding_records().iter().map(|r| r.subtable_offset().to_u32()).collect();
+        let distinct: BTreeSet<u32> = offs.iter().copied().collect();
+        s.count(if distinct.len() < offs.len() { "cmap-table:shared-subtable=yes" } else { "cmap-table:shared-subtable=no" });
+        for orec in ocmap.encoding_records() {
+            let key = (orec.platform_id(), orec.encoding_id());
+            let kept = scmap.encoding_records().iter().any(|r| (r.platform_id(), r.encoding_id()) == key);
+            match orec.subtable(ocmap.offset_data()) {
+                Ok(CmapSubtable::Format12(_)) => s.count(if kept { "cmap-table:format12-record=kept" } else { "cmap-table:format12-record=dropped" }),
+                Ok(CmapSubtable::Format4(_)) => s.count(if kept { "cmap-table:format4-record=kept" } else { "cmap-table:format4-record=dropped" }),
+                Ok(CmapSubtable::Format14(t)) => {
+                    s.count(if kept { "cmap-table:format14-record=kept" } else { "cmap-table:format14-record=dropped" });
+                    for r in t.var_selector() {
+                        if !view.unicodes.contains(&r.var_selector().to_u32()) {
+                            continue;
+                        }
+                        if let Some(d) = r.default_uvs(t.offset_data()).transpose().ok().flatten() {
+                            let n = d.ranges().len();
+                            let bits = (32 - (n as u32).leading_zeros()) as usize;
+                            s.count(if n > view.unicodes.len() * bits { "cmap-table:default-uvs-branch=few-unicodes" } else { "cmap-table:default-uvs-branch=many-unicodes" });
+                        }
+                    }
+                }
+                Ok(_) => s.count("cmap-table:other-format-record"),
+                Err(_) => s.count("cmap-table:unreadable-record"),
+            }
+        }
+    }
     let ocm = font.charmap();
     let num = view.font_num_glyphs as u32;
     // code points to examine: requested ones, their neighbours, and everything the original maps (bounded)
